@@ -71,7 +71,8 @@ def base_files(ctx):
              Cfg(2, universe.DELTA_DICT, 1, 2, 1)]
     bases = []
     if quick:
-        pick = [("ab", cfgs[5]), ("aab", cfgs[16]), ("a", cfgs[17]), ("abcd", cfgs[3]), ("", cfgs[9]), ("ab", cfgs[19])]
+        pick = [("ab", cfgs[5]), ("aab", cfgs[16]), ("a", cfgs[17]), ("abcd", cfgs[3]), ("", cfgs[9]), ("ab", cfgs[19]),
+                ("ab", cfgs[12]), ("a", cfgs[15])]      # SHA-512/128 overall digest: the lead is shorter than the reader's first 25-byte read
     else:
         pick = []
         for i, c in enumerate(cfgs):
